@@ -136,6 +136,13 @@ def _extract(dest):
                 raise AnalysisIncomplete("grammar", f"cannot read {rel}: {r.stdout[-500:]} {r.stderr[-500:]}")
             with open(os.path.join(dest, name + ".gram.json"), "w") as fh:
                 fh.write(r.stdout)
+        # helper functions of the plain Rust sources (syntax trees, for inlining calls made by grammar actions)
+        rs = [os.path.join(REPO, rel) for rel in source_files() if rel.endswith(".rs")]
+        r = subprocess.run([GRAM, "rustfns"] + rs, stdout=subprocess.PIPE, stderr=subprocess.PIPE, text=True)
+        if r.returncode != 0 or not r.stdout.strip().startswith("["):
+            raise AnalysisIncomplete("helpers", f"cannot read the Rust sources: {r.stderr[-500:]}")
+        with open(os.path.join(dest, "helpers.json"), "w") as fh:
+            fh.write(r.stdout)
         # generated-parser consistency: what the scratch build compiled was regenerated from the
         # grammar (the generated files were not copied).  If /repo holds a leftover generated file
         # whose header claims the current grammar but whose body differs, the real build would
@@ -223,7 +230,16 @@ class Facts:
     def gram(self, which):
         if which not in self._gram:
             self._gram[which] = json.load(self._open(which + ".gram.json"))
+            self._gram[which]["helpers"] = self.helpers()
         return self._gram[which]
+
+    def helpers(self):
+        if not hasattr(self, "_helpers"):
+            hs = json.load(self._open("helpers.json"))
+            for h in hs:
+                h["file"] = os.path.relpath(h["file"], REPO) if h["file"].startswith(REPO) else h["file"]
+            self._helpers = hs
+        return self._helpers
 
     def gram_path(self, which):
         return os.path.join(REPO, GRAMMARS[which])
